@@ -185,3 +185,42 @@ Proof.
   split; [apply index_byte_app; exact Hl|].
   rewrite firstn_app, firstn_all, Nat.sub_diag. simpl. apply app_nil_r.
 Qed.
+
+(* ---- the Lua suffix of a name (FileIndex.suffix_index), for either variant of the code ----
+   good_lua sfx g: g is a file whose module name the variant sfx computes as "g without .lua":
+     before fixes/C18-dotted-path.diff only a path whose ONLY '.' is the one of the final ".lua";
+     after it every path that ends in ".lua" *)
+Definition good_lua (sfx : bool) (g : list N) : bool := if sfx then is_suffix lua_ext g else simple_lua g.
+
+Lemma firstn_app_exact {A} (x y : list A) : firstn (length x) (x ++ y) = x.
+Proof. rewrite firstn_app, firstn_all, Nat.sub_diag. simpl. apply app_nil_r. Qed.
+
+Lemma lua_suffix_index x : suffix_index true (x ++ lua_ext) = Some (length x).
+Proof.
+  unfold suffix_index.
+  assert (is_suffix lua_ext (x ++ lua_ext) = true) as -> by (apply is_suffix_spec; exists x; reflexivity).
+  rewrite app_length. f_equal. unfold lua_ext. simpl. lia.
+Qed.
+
+Lemma lua_pre b : complete_pre_fx true (b ++ lua_ext) = b.
+Proof. unfold complete_pre_fx. rewrite lua_suffix_index. apply firstn_app_exact. Qed.
+
+Lemma good_lua_spec sfx g : good_lua sfx g = true ->
+  exists b, g = b ++ lua_ext /\
+    suffix_index sfx (last_seg g) = Some (length (last_seg b)) /\
+    firstn (length (last_seg b)) (last_seg g) = last_seg b /\
+    complete_pre_fx sfx g = b.
+Proof.
+  destruct sfx; cbn [good_lua]; intros H.
+  - apply is_suffix_spec in H as [b ->]. exists b. split; [reflexivity|].
+    rewrite (last_seg_app_nosep b lua_ext lua_ext_no_slash).
+    split; [apply lua_suffix_index|]. split; [apply firstn_app_exact|apply lua_pre].
+  - apply simple_lua_spec in H as [b [-> Hb]]. exists b. split; [reflexivity|].
+    destruct (simple_name_dot b Hb) as [Hi Hf]. split; [exact Hi|]. split; [exact Hf|].
+    exact (simple_pre b Hb).
+Qed.
+
+Lemma good_lua_ends sfx g : good_lua sfx g = true -> is_suffix lua_ext g = true.
+Proof.
+  intros H. destruct (good_lua_spec sfx g H) as [b [-> _]]. apply is_suffix_spec. exists b. reflexivity.
+Qed.
